@@ -593,7 +593,11 @@ func c10Run(t *testing.T, c *evid.Collector) {
 	for _, k := range kinds {
 		for _, b := range c10HostileBuckets {
 			for _, opk := range []string{"put", "get", "head", "del", "mdel", "copy-to", "list-prefix", "api-put", "api-get", "api-del", "rmbucket", "mkbucket", "post", "complete"} {
-				for _, key := range []string{"a", "x", "bk0/a", "d/x"} {
+				hkeys := []string{"a", "bk0/a"}
+				if evid.Thorough() {
+					hkeys = []string{"a", "x", "bk0/a", "d/x"}
+				}
+				for _, key := range hkeys {
 					n++
 					if n%evid.Shards() != evid.Shard() {
 						continue
